@@ -74,6 +74,31 @@ pub struct Nested {
 #[archive(check_bytes)]
 pub struct Unit;
 
+// messages whose archived form has alignment 1 or 2 and a size that is not a multiple of four
+#[repr(C)]
+#[derive(Serialize, Deserialize, Archive, Debug, PartialEq, Clone)]
+#[archive(check_bytes)]
+pub struct Tiny {
+    a: u8,
+    b: u8,
+    c: u8,
+}
+
+#[repr(C)]
+#[derive(Serialize, Deserialize, Archive, Debug, PartialEq, Clone)]
+#[archive(check_bytes)]
+pub struct Flag(bool);
+
+#[repr(C)]
+#[derive(Serialize, Deserialize, Archive, Debug, PartialEq, Clone)]
+#[archive(check_bytes)]
+pub struct Short(u16);
+
+#[repr(C)]
+#[derive(Serialize, Deserialize, Archive, Debug, PartialEq, Clone)]
+#[archive(check_bytes)]
+pub struct Arr5([u8; 5]);
+
 fn verdict<T>(buf: &[u8]) -> &'static str
 where
     T: Archive,
@@ -150,6 +175,10 @@ impl RpcService for Echo {
         registry.add_handler::<Fixed>();
         registry.add_handler::<WithVec>();
         registry.add_handler::<Nested>();
+        registry.add_handler::<Tiny>();
+        registry.add_handler::<Flag>();
+        registry.add_handler::<Short>();
+        registry.add_handler::<Arr5>();
     }
 }
 
@@ -168,6 +197,10 @@ macro_rules! echo_handler {
 }
 echo_handler!(Fixed);
 echo_handler!(Nested);
+echo_handler!(Tiny);
+echo_handler!(Flag);
+echo_handler!(Short);
+echo_handler!(Arr5);
 
 #[datacake_rpc::async_trait]
 impl Handler<WithVec> for Echo {
@@ -297,6 +330,26 @@ pub async fn record() {
         frames += 1;
         mutate_all::<Status>(&mut counts, "Status", &fr, &mut rng, max_exhaustive);
     }
+    macro_rules! small {
+        ($t:ty, $name:expr, $vals:expr) => {
+            for v in $vals.iter() {
+                let fr = to_view_bytes(v).unwrap();
+                frames += 1;
+                mutate_all::<$t>(&mut counts, $name, &fr, &mut rng, max_exhaustive);
+                let view = DataView::<$t>::using(fr).expect("intact frame");
+                let back: $t = view.deserialize_view().expect("deserialize");
+                writeln!(f, "{}", json!({"ev": "view", "type": $name, "equal": back == *v})).unwrap();
+            }
+        };
+    }
+    let tinies = vec![Tiny { a: 9, b: 1, c: 200 }, Tiny { a: 0, b: 0, c: 0 }, Tiny { a: 255, b: 254, c: 253 }];
+    let flags = vec![Flag(true), Flag(false)];
+    let shorts = vec![Short(0x1F90), Short(1), Short(u16::MAX)];
+    let arrs = vec![Arr5([1, 2, 3, 4, 5]), Arr5([255; 5])];
+    small!(Tiny, "Tiny", tinies);
+    small!(Flag, "Flag", flags);
+    small!(Short, "Short", shorts);
+    small!(Arr5, "Arr5", arrs);
     let mut frame_events = 0u64;
     for ((ty, mutation, len, min_len, ok, verdict), n) in &counts {
         frame_events += n;
@@ -376,6 +429,23 @@ pub async fn record() {
         writeln!(f, "{}", json!({"ev": "roundtrip", "type": "Fixed", "sent": digest(&v.c), "ok": r.is_ok(),
                                  "replyEqualsSent": same, "handlerRuns": 1})).unwrap();
     }
+    macro_rules! small_rt {
+        ($t:ty, $name:expr, $vals:expr) => {
+            for v in $vals.iter() {
+                let before = runs.load(Ordering::SeqCst);
+                let r = client.send(v).await;
+                let after = runs.load(Ordering::SeqCst);
+                let same = matches!(&r, Ok(view) if view.deserialize_view().map(|b: $t| b == *v).unwrap_or(false));
+                rt += 1;
+                writeln!(f, "{}", json!({"ev": "roundtrip", "type": $name, "sent": format!("{:?}", v), "ok": r.is_ok(),
+                                         "replyEqualsSent": same, "handlerRuns": after - before})).unwrap();
+            }
+        };
+    }
+    small_rt!(Tiny, "Tiny", tinies);
+    small_rt!(Flag, "Flag", flags);
+    small_rt!(Short, "Short", shorts);
+    small_rt!(Arr5, "Arr5", arrs);
     // handler errors: code and message must reach the client unchanged
     let mut errs = 0u64;
     for i in 0..10u64 {
